@@ -50,8 +50,13 @@ def run(ctx):
                 S.case_cmp, S.case_detect, S.case_detect, S.case_detect]
     exprs, infos = [], []
     n = ctx.n(2200, 60000)
+    crashes = []
     for i in range(n):
-        e, info = builders[i % len(builders)](F, rng)
+        try:
+            e, info = builders[i % len(builders)](F, rng)
+        except S.Crash as c:
+            crashes.append(c)
+            continue
         exprs.append(e)
         infos.append(info)
     res = _run_cases(ctx, "version", S.HEADER, exprs)
@@ -66,6 +71,8 @@ def run(ctx):
                detect_minor=0, detect_patch=0, detect_pre_only_growth=0, detect_no_previous=0,
                detect_non3=0, detect_semver_spelling=0)
     kinds, fails = {}, []
+    for c in crashes[:3]:
+        fails.append(("C34/raises", str(c), dict(call=c.call)))
     for info in infos:
         kd = info["kind"]
         kinds[kd] = kinds.get(kd, 0) + 1
@@ -153,7 +160,12 @@ def run(ctx):
         for b in pair_pool:
             npairs += 1
             cur, prev = S.semver_of(a), S.canonical(b)
-            out = dct(cur, prev)
+            try:
+                out = dct(cur, prev)
+            except Exception as e:  # noqa: BLE001
+                fails.append(("C34/raises", "detect_change_type(%r, %r) raised %r" % (cur, prev, e),
+                              dict(current_version=cur, previous_version=prev)))
+                break
             m = S.monitor_detect(F, a, b, cur, prev, out) if out in S.CLASSES else (
                 "C34/classification-unknown-class", "detect_change_type returned %r" % (out,))
             if m:
